@@ -139,7 +139,8 @@ def _install_clock():
 class World:
     """one run of a history under one cache variant"""
 
-    def __init__(self, base, variant, workdir, rng, clock):
+    def __init__(self, base, variant, workdir, rng, clock, session_mode='fresh'):
+        self.session = repolab.Session(session_mode) if session_mode != 'fresh' and variant != 'none' else None
         self.base, self.variant, self.rng = base, variant, rng
         self.dir = Path(workdir)
         self.FakeDT, self._dt = clock
@@ -164,7 +165,7 @@ class World:
         repo = 1 if c == 3 else 0
         u = self.base['users'][c]
         return repolab.Client(self.be[repo], password=u['password'].encode('latin1') if u['password'] else None,
-                              key=u['key'].encode('latin1') if u['key'] else None, cache=self.cache[c])
+                              key=u['key'].encode('latin1') if u['key'] else None, cache=self.cache[c], session=self.session)
 
     def objects(self, repo):
         return dict(self.be[0].objects) if repo == 0 else snapshot_local(self.dir / 'repo1')
@@ -429,6 +430,21 @@ def make_base(rng, workdir):
     return {'objects0': dict(be0.objects), 'objects1': snapshot_local(wd / 'base1'), 'users': users, 'trees': trees}
 
 
+SESSION_MODES = ['fresh', 'one', 'per-user']
+
+
+def session_mode(hid, variant, variants):
+    """how the commands of a run get their Repository objects: a fresh object per command, ONE long-lived object per
+    repository and cache directory that is re-unlocked with the credentials of whoever issues the command, or one long-lived
+    object per user; rotates over histories and variants (the shared-directory variant starts with 'one')."""
+    if variant == 'none':
+        return 'fresh'
+    idx = variants.index(variant) if variant in variants else 0
+    if variant == 'shared':
+        return ['one', 'per-user', 'fresh'][hid % 3]
+    return SESSION_MODES[(hid + idx) % 3]
+
+
 def worker_main():
     import random
     inp = json.load(sys.stdin)
@@ -440,7 +456,8 @@ def worker_main():
     out = {}
     for variant in ['none'] + inp['variants']:
         os.umask(0o022)         # every variant starts from the same process state
-        w = World(base, variant, wd / f'v-{variant}', random.Random(inp['seed'] * 7919 + len(variant) * 131 + sum(map(ord, variant))), clock)
+        mode = session_mode(inp.get('hid', 0), variant, inp['variants'])
+        w = World(base, variant, wd / f'v-{variant}', random.Random(inp['seed'] * 7919 + len(variant) * 131 + sum(map(ord, variant))), clock, mode)
         steps = []
         for i, op in enumerate(inp['history']):
             if variant == 'warm' and i and i % 3 == 0:
@@ -449,7 +466,9 @@ def worker_main():
                     w.client(c).list_snapshots()
             obs, extra = w.step(i, op)
             steps.append({'obs': obs, 'extra': extra})
-        out[variant] = {'steps': steps, 'touched': w.read_or_repaired,
+        if w.session is not None:
+            w.session.close()
+        out[variant] = {'steps': steps, 'touched': w.read_or_repaired, 'session': mode,
                         'paths': {str(l): [p[0], p[1]] for l, p in w.paths.items()}}
         shutil.rmtree(wd / f'v-{variant}', ignore_errors=True)
     sys.stdout.write(json.dumps(out))
@@ -925,6 +944,7 @@ def check_history(rep: Report, hid, history, result, variants, with_model=True):
         if v != 'none':
             rep.case((hid, v), nontrivial=run['touched'] > 0)
             rep.count('variant:' + v)
+            rep.count('objects:' + run.get('session', 'fresh'))
             for i, (sa, sb) in enumerate(zip(ref['steps'], run['steps'])):
                 key = diff_obs(sa['obs'], sb['obs'])
                 if key:
@@ -934,7 +954,8 @@ def check_history(rep: Report, hid, history, result, variants, with_model=True):
                         keys_ = [k_ for k_ in sorted(set(got_) | set(ref_)) if got_.get(k_) != ref_.get(k_)][:3]
                         got_, ref_ = {k_[-24:]: got_.get(k_, 'not written') for k_ in keys_}, {k_[-24:]: ref_.get(k_, 'not written') for k_ in keys_}
                     rep.violations.append({
-                        'what': f'with cache variant "{v}" step {i} ({op["op"]}{" --skip-existing" if op.get("skip_existing") else ""} by {USERS[op["client"]]}) '
+                        'what': f'with cache variant "{v}" ({run.get("session", "fresh")} Repository object{"" if run.get("session", "fresh") == "fresh" else ", long-lived"}) '
+                                f'step {i} ({op["op"]}{" --skip-existing" if op.get("skip_existing") else ""} by {USERS[op["client"]]}) '
                                 f'differs from the cache-less run in {key}: {json.dumps(got_)[:150]} vs {json.dumps(ref_)[:150]}',
                         'signature': {'variant': v, 'op': op['op'], 'differs': key},
                         'replay': {'history_id': hid, 'history': history, 'variant': v, 'step': i}})
@@ -955,7 +976,7 @@ def run_histories(ctx, rep, histories, variants, with_model=True):
         wd = ctx.scratch / f'h{hid}'
         wd.mkdir(parents=True, exist_ok=True)
         rc, out, err = core.run_impl(['-m', 'harness.c18', 'worker'],
-                                     {'seed': seed, 'history': history, 'variants': variants, 'workdir': str(wd)}, timeout=1500)
+                                     {'seed': seed, 'hid': hid, 'history': history, 'variants': variants, 'workdir': str(wd)}, timeout=1500)
         shutil.rmtree(wd, ignore_errors=True)
         if rc != 0 or not out.strip():
             return {'error': f'worker rc={rc}: {err[-600:]}'}
